@@ -81,6 +81,8 @@ def gen_cases(rng, tier):
             c['target'] = rng.pick(['concat', 'T'])
             if c['selected'] and rng.chance(0.25):
                 c['target'] = rng.pick(c['selected'])      # the target takes over the name of a resource it absorbs
+            if rng.chance(0.25):
+                c['oneshot'] = True
         elif k == 'duplicate':
             c['source'] = rng.pick(names + [None])
             c['target'] = rng.pick([None, 'copy_x'])
@@ -119,6 +121,8 @@ def gen_cases(rng, tier):
         for via in ('delete', 'concat'):
             cases.append({'kind': 'autoname', 'n': n_, 'drop': drop, 'via': via, 'pkg': []})
     cases.append({'kind': 'autoname', 'n': 12, 'drop': 8, 'via': 'concat', 'then_delete': 10, 'pkg': []})
+    for chdir in (True, False):
+        cases.append({'kind': 'relload', 'chdir': chdir, 'pkg': []})
     for up in sorted(LIVE_UP):
         for then in (False, True):
             cases.append({'kind': 'liveload', 'up': up, 'then': then, 'pkg': []})
@@ -149,7 +153,9 @@ def edited_after_dup(case):
 def steps_of(case):
     k = case['kind']
     if k == 'concat':
-        return [DF.concatenate(dict((t, list(s_)) for t, s_ in case['fields']), target={'name': case['target']},
+        # (the source field names of a target handed over as a list, or as a one-shot iterable)
+        srcs = (lambda l: (x for x in l)) if case.get('oneshot') else list
+        return [DF.concatenate(dict((t, srcs(s_)) for t, s_ in case['fields']), target={'name': case['target']},
                                resources=case['selected'])]
     if k == 'duplicate':
         kw = {}
@@ -254,14 +260,46 @@ def run_liveload(case):
         return {'error': 1, 'exc': '%s: %s' % (type(c).__name__, str(c)[:200])}
 
 
+def run_relload(case):
+    """load() given a relative path: the file meant is the one that path names where the flow runs (the working directory
+    is changed between building the Flow and running it, and both directories hold a file of that name)"""
+    import csv as _csv
+    base = os.path.join(scratch(), 'rel_%s' % digest(case))
+    shutil.rmtree(base, ignore_errors=True)
+    old = os.getcwd()
+    try:
+        for d, rows in (('build', [[1, 'old'], [2, 'old'], [3, 'old']]), ('run', [[7, 'new'], [8, 'new']])):
+            os.makedirs(os.path.join(base, d, 'data'))
+            with open(os.path.join(base, d, 'data', 'table.csv'), 'w', newline='') as f:
+                w = _csv.writer(f)
+                w.writerow(['n', 'which'])
+                w.writerows(rows)
+        os.chdir(os.path.join(base, 'build'))
+        flow = Flow([{'z': 1}], DF.load('data/table.csv', name='table'))
+        os.chdir(os.path.join(base, 'run') if case['chdir'] else os.path.join(base, 'build'))
+        with quiet():
+            rows, dp, _ = flow.results()
+        return {'names': [r.name for r in dp.resources], 'loaded': [[r['n'], r['which']] for r in rows[1]]}
+    except Exception as e:
+        c = e
+        while type(c).__name__ == 'ProcessorError' and getattr(c, 'cause', None) is not None:
+            c = c.cause
+        return {'error': 1, 'exc': '%s: %s' % (type(c).__name__, str(c)[:200])}
+    finally:
+        os.chdir(old)
+        shutil.rmtree(base, ignore_errors=True)
+
+
 def run_impl(case):
+    if case['kind'] == 'relload':
+        return run_relload(case)
     if case['kind'] == 'autoname':
         return run_autoname(case)
     if case['kind'] == 'liveload':
         return run_liveload(case)
     res = src_resources(case['pkg'])
     steps = steps_of(case)
-    one_shot = case['kind'] == 'append' and case['how'] in ('load_tuple', 'sources')
+    one_shot = (case['kind'] == 'append' and case['how'] in ('load_tuple', 'sources')) or case.get('oneshot')
     out = run_stream(res, steps, rerun=not one_shot)
     if 'error' in out:
         return {'error': out['error'], 'exc': out['exc']}
@@ -366,6 +404,14 @@ def same_res(a, b, path=True):
 
 
 def oracle(case, out):
+    if case['kind'] == 'relload':
+        if 'error' in out:
+            return 'load of a relative path failed: %s' % out['exc']
+        want = [[7, 'new'], [8, 'new']] if case['chdir'] else [[1, 'old'], [2, 'old'], [3, 'old']]
+        if out['names'] != ['res_1', 'table'] or out['loaded'] != want:
+            return ('load(\'data/table.csv\') built in one directory and run in %s appended %r with the rows %r; the file of that name '
+                    'in the running directory holds %r') % ('another' if case['chdir'] else 'the same', out['names'], out['loaded'], want)
+        return None
     if case['kind'] == 'liveload':
         what = 'load((descriptor, resources)) of the live stream of a flow with %s' % case['up']
         if 'error' in out:
@@ -459,7 +505,7 @@ def crname(name):
 
 
 def coq_term(case, out):
-    if case['kind'] == 'liveload':
+    if case['kind'] in ('liveload', 'relload'):
         return None
     if case['kind'] == 'autoname':
         # the model's rule applied to the names that were there when the last iterable was added must give the name the
@@ -504,7 +550,7 @@ def coq_term(case, out):
 
 
 def nontrivial(case, out):
-    return case['kind'] in ('autoname', 'liveload') or 'error' in out or [r['name'] for r in out['pkg']] != [r['name'] for r in case['pkg']] or \
+    return case['kind'] in ('autoname', 'liveload', 'relload') or 'error' in out or [r['name'] for r in out['pkg']] != [r['name'] for r in case['pkg']] or \
         any(a['rows'] != b['rows'] for a, b in zip(out['pkg'], case['pkg']))
 
 
